@@ -6,12 +6,19 @@ An observation (`Snap`) is taken when the loop is quiescent: after `start()` and
 violated clause (1-7):
   1  the connect future is completed at most once and never changes afterwards
   2  it completes with the *first* connection that succeeded (first success delivered while it was pending)
-  3  it completes with an error only when the overall timeout fired while pending, or every address has been
-     tried and has failed
+  3  it completes with an error only when the overall timeout fired while pending, or every attempt has failed
+     and every address of the list has a failed attempt
   4  once it has completed, every stream the connector opened other than the winner is closed (the winner is not)
   5  at most one connection attempt per address family is in flight
   6  when nothing is in flight and no timer is live, it has completed
-  7  streams are opened only for addresses of the list, at most one per address
+  7  streams are opened only for entries of the list, at most one per entry
+  8  when every address of the list has a failed attempt and nothing is in flight, it has completed
+     ("with an error once every address has failed" — also while a timer is still pending)
+
+Address identity.  A stream is reported with the position (`Addr.idx`) of the list entry it was opened for; two
+entries denote the same *address* iff family and `name` agree (`sameAddr`).  A resolved list may repeat an
+address.  "Every address has failed" (clauses 3, 8) is judged per address, not per entry, so it neither demands
+nor forbids a second attempt at a repeated address; clause 8 only speaks once nothing is in flight.
 -/
 import TornadoModel.C10.Model
 namespace TornadoModel.C10.Spec
@@ -31,6 +38,18 @@ structure Snap where
   deriving Repr, BEq, DecidableEq
 
 def famOf (addrs : List Addr) (i : Nat) : Option Nat := (addrs.find? (fun a => a.idx == i)).map (·.fam)
+
+def sameAddr (a b : Addr) : Bool := a.fam == b.fam && a.name == b.name
+
+/-- the stream was opened for (an entry denoting) the address of `a` -/
+def streamFor (addrs : List Addr) (a : Addr) (x : SStream) : Bool :=
+  match addrs.find? (fun b => b.idx == x.addr) with
+  | some b => sameAddr a b
+  | none => false
+
+/-- every address of the list has a stream whose connect failed -/
+def allAddrsFailed (addrs : List Addr) (c : Snap) : Bool :=
+  addrs.all (fun a => c.streams.any (fun x => x.fut == .err && streamFor addrs a x))
 
 def inflightIn (p : Snap) (s : Nat) : Bool :=
   match p.streams[s]? with
@@ -62,7 +81,7 @@ def clause3 (addrs : List Addr) (p : Snap) (e : Event) (c : Snap) : Bool :=
     c.outcome.all (fun o => match o with
       | .ok _ _ => true
       | .timeout => e == .ctick && p.ctimerLive
-      | _ => c.streams.all (fun x => x.fut == .err) && addrs.all (fun a => c.streams.any (fun x => x.addr == a.idx)))
+      | _ => c.streams.all (fun x => x.fut == .err) && allAddrsFailed addrs c)
   else true
 
 def clause4 (c : Snap) : Bool :=
@@ -84,8 +103,12 @@ def clause6 (c : Snap) : Bool :=
 def clause7 (addrs : List Addr) (c : Snap) : Bool :=
   distinct (c.streams.map (·.addr)) && c.streams.all (fun x => addrs.any (fun a => a.idx == x.addr))
 
+def clause8 (addrs : List Addr) (c : Snap) : Bool :=
+  !(allAddrsFailed addrs c && !c.streams.any (fun x => x.fut == .pending)) || !c.outcome.isEmpty
+
 def static (addrs : List Addr) (c : Snap) : Nat :=
-  if !clause4 c then 4 else if !clause5 addrs c then 5 else if !clause6 c then 6 else if !clause7 addrs c then 7 else 0
+  if !clause4 c then 4 else if !clause5 addrs c then 5 else if !clause6 c then 6 else if !clause7 addrs c then 7
+  else if !clause8 addrs c then 8 else 0
 
 def stepCheck (addrs : List Addr) (p : Snap) (e : Event) (c : Snap) : Nat :=
   if !clause1 p c then 1 else if !clause2 p e c then 2 else if !clause3 addrs p e c then 3 else static addrs c
@@ -104,7 +127,7 @@ def check (addrs : List Addr) (events : List Event) : List Snap → Nat
     -- `start()` may already complete the future (every address failed synchronously)
     let first := if s0.outcome.length > 1 then 1
       else if !(s0.outcome.all (fun o => match o with
-        | .lastError _ => s0.streams.all (fun x => x.fut == .err) && addrs.all (fun a => s0.streams.any (fun x => x.addr == a.idx))
+        | .lastError _ => s0.streams.all (fun x => x.fut == .err) && allAddrsFailed addrs s0
         | _ => false)) then 3
       else static addrs s0
     match first with
